@@ -685,8 +685,17 @@ func (b *Buffer) reverseRange(start, end int) {
 		return
 	}
 	info := b.Info[start:end]
-	pos := b.Pos[start:end]
 	L := len(info)
+	if len(b.Pos) != len(b.Info) {
+		// no positions yet (before positioning, substitutions change the
+		// length of Info only): reverse the glyphs alone
+		for i := L/2 - 1; i >= 0; i-- {
+			opp := L - 1 - i
+			info[i], info[opp] = info[opp], info[i]
+		}
+		return
+	}
+	pos := b.Pos[start:end]
 	_ = pos[L-1] // BCE
 	for i := L/2 - 1; i >= 0; i-- {
 		opp := L - 1 - i
